@@ -6,42 +6,135 @@ import os
 ROOT = os.path.dirname(os.path.dirname(os.path.abspath(__file__)))
 PY = '/venv/bin/python'
 
-LEMMAS = ('Sphinx lemmas TJ/H/L1-L3 (DESIGN.md 1.1); Python semantics of the analysed subset; '
-          'the checker reads /repo with ast only')
+LEMMAS = ('Trusted base: Sphinx lemmas TJ/H/L1-L3 (DESIGN.md 1.1); Python semantics of the analysed subset; the '
+          'checker reads /repo with ast only and never imports or runs hidc.')
 
 CHECKS = {
+    'C01': dict(
+        technique='layout agreement between caller, callee and library text; evaluation-order and register-hold '
+                  'rules on enumerated emission paths',
+        text='Necessary structural conditions of correct sequential compilation, decided for every emission path: '
+             'call-protocol and frame-layout agreement, operand evaluation order, scratch-register hold discipline, '
+             'scoping order, entry-argument layout. Does not decide the values any program prints.'),
+    'C02': dict(
+        technique='template-shape matching on enumerated emission paths + typestate analysis of the runtime defeat word',
+        text='Decides the shape of the five time-travel templates (undo, stop, preempt, ??, return protection) on '
+             'every emission path and a typestate property of the defeat word (equal to the enclosing target on '
+             'every edge leaving a try/stop). The future-quantified biconditionals are not decided.'),
     'C03': dict(
-        technique='syntax-tree path enumeration of generator functions + form classification of every '
-                  'jump/halt emission; CFG of the embedded assembly text',
-        text='Structural argument: every j / halt-class instruction the compiler can emit is in one of six '
-             'canonical forms on every path of every generator function and in the library text, so under the '
-             'Sphinx lemmas a committed halt is only possible at a defeat site (confined by C06). Decides the '
-             'shape of emitted code for all programs at once; does not run anything.',
-        design='C03'),
+        technique='syntax-tree path enumeration of generator functions + form classification of every jump/halt '
+                  'emission; CFG of the embedded assembly text',
+        text='Structural argument: every j / halt-class instruction the compiler can emit is in one of six canonical '
+             'forms on every path of every generator function and in the library text, so under the Sphinx lemmas a '
+             'committed halt is only possible at a defeat site (confined by C06). Decides the shape of emitted code for '
+             'all programs at once.'),
+    'C04': dict(
+        technique='who-may-write / must-follow rules on the frame model, guard dominance on emission paths, finite '
+                  'tabulation of size functions, def-use analysis of store addresses in the library text',
+        text='Decides the stack-accounting discipline the guards rely on (every frame growth recorded before use, ap '
+             'advanced only when accounted, guards dominate guarded operations, scale agreement, store provenance, '
+             'library stores confined or reserved by the caller). No numeric worst-case bound is decided.'),
+    'C05': dict(
+        technique='skip-guard extraction on emission paths, canonical-comparison normalisation, must-precede rules, '
+                  'finite tabulation of the preemptive flag, text check of the error stubs',
+        text='Decides that every faulting operation is preceded on every checked path by a guard with the exact '
+             'no-fault comparison on the same operands, targeting the right stub; stub text; propagation of the '
+             'preemptive flag that arms the return-boundary guard.'),
+    'C06': dict(
+        technique='abstract interpretation of the context flag set through the grammar coroutines over the full '
+                  '32-element lattice, with semantic-position tracking',
+        text='Exhaustive over the finite context lattice: the accept/reject verdict of the grammar for every '
+             'context-sensitive construct in every reachable (coroutine, context, semantic position) is compared in '
+             'both directions with the documented rule; holds at any nesting depth by fixpoint.'),
+    'C07': dict(
+        technique='finite-domain tabulation of cast / coercion relations by interpreting the typechecker methods '
+                  'from their syntax trees; guard-site dominance',
+        text='Tabulates the cast and coercion relations over the 15-element type domain and the literal overrides '
+             'against the documented tables, and checks that each documented rejection has a raise dominating the '
+             'accepted construction. Exactness over all programs is not decided.'),
+    'C08': dict(
+        technique='typestate (linearity) simulation of stack bubbles on every enumerated path; must-pass-through '
+                  'rules for exit routes',
+        text='Every produced bubble is released exactly once in LIFO order or returned on every path of every '
+             'generator function (discharging the compile-time assertions); exits reset ap, block ends pop dynamically, '
+             'fp is rebased symmetrically, stop handler restores fp then ap.'),
+    'C09': dict(
+        technique='table/sibling agreement (token, AST class, fold, instruction, mnemonic), lowering-shape rules on '
+                  'emission paths, interpretation of accessor classes',
+        text='Decides the compiler\'s operator mapping and the agreement of the value / branch / defeat lowerings, '
+             'cast lowerings and byte-access mapping. VM arithmetic itself is not decided.'),
+    'C10': dict(
+        technique='whole-package call graph with may-raise sets (explicit raises, asserts, partial builtins) '
+                  'filtered through handlers; dispatch exhaustiveness; dominance of output opening',
+        text='Exception-escape analysis from main() and the public API: only CompilerError/OSError may escape; '
+             'dispatch exhaustiveness; output file opened only after generation. Implicit TypeError/AttributeError '
+             'are outside the table.'),
+    'C11': dict(
+        technique='structural extraction of the precedence ladder from the grammar coroutines, compared with the '
+                  'documented table',
+        text='Complete for the grammar as written: levels, operator sets, operand rules, left fold, unary/is/postfix/'
+             'paren/?? binding all equal the documented table. The print/parse round trip is not decided (no printer).'),
+    'C12': dict(
+        technique='regex syntax trees to DFA language equivalence with reference patterns; table checks; reader-order '
+                  'and span-bookkeeping order rules',
+        text='Literal patterns are language-equivalent to references, escape table, keyword/symbol partition and '
+             'longest-match order, reader order, span bookkeeping order, layout-free tokens.'),
+    'C13': dict(
+        technique='interpretation of the escaping function over all 256 bytes x quotes with a reference decoder; '
+                  'emission-path rules for data directives',
+        text='Escaping is total and exact over every byte value and both quote characters; string table length '
+             'prefixes, directive kinds, bool bit order and recorded array lengths agree.'),
+    'C14': dict(
+        technique='fold-table agreement, finite tabulation of literal casts and logical folds, information-flow '
+                  'census for word size',
+        text='Decides agreement of the folding tables with the run-time lowering tables and the literal-cast rules; '
+             'word-size dependence of non-homomorphic folds is reported as a known finding.'),
+    'C15': dict(
+        technique='erasure equality of emission paths: checked path minus skip-guards equals unchecked path for all '
+                  'compatible path pairs; information-flow census of the flag',
+        text='Sufficient structural condition under the skip-guard lemma: the unchecked build is the checked build '
+             'minus complete skip-guards, for every path pair; the flag is read only in branch tests.'),
+    'C16': dict(
+        technique='finite-domain tabulation of the exit-mode transfer functions (32 mode sets) by interpreting them '
+                  'from their syntax trees; emission-path rules for the return arm',
+        text='Exhaustive over the ExitMode lattice: NONE/BREAK soundness of every transfer function, statement '
+             'dropping, implicit return, terminal-call recognition; return arm always ends in goto(ra).'),
+    'C17': dict(
+        technique='dispatch-table exhaustiveness, CFG/def-use rules over the library text, template conformance of '
+                  'the digit loop',
+        text='Structural conformance of the write family (dispatch by storage class, literal true/false, single '
+             'newline, return protocol, itoa template constants). The digits printed for every value are not decided.'),
+    'C18': dict(
+        technique='nondeterminism-source census, information-flow (stack_size, lint option), word-size '
+                  'parametricity rules over generator and library text',
+        text='No unordered iteration or nondeterminism source on the output path; stack_size and --lint '
+             'non-interference; word sizes always through the word_size parameter. Behaviour under word widening is '
+             'not decided.'),
 }
 
 NOT_APPLICABLE = {}
 
-PENDING = ['C01', 'C02', 'C04', 'C05', 'C06', 'C07', 'C08', 'C09', 'C10', 'C11', 'C12', 'C13', 'C14',
-           'C15', 'C16', 'C17', 'C18']
-
 
 def main():
     checks = []
+    built = []
     for pid, c in sorted(CHECKS.items()):
+        if not os.path.exists(os.path.join(ROOT, 'hidverif', 'checks', pid.lower() + '.py')):
+            continue
+        built.append(pid)
         checks.append({
             'property_id': pid,
             'quick_cmd': f'{PY} -m hidverif check {pid} --tier quick',
             'thorough_cmd': f'{PY} -m hidverif check {pid} --tier thorough',
             'evidence_file': f'/verif/evidence/{pid}.json',
             'engine': 'hidverif',
-            'level_claimed': {'category': 'other', 'text': c['text'], 'design_ref': f'DESIGN.md section 3, {c["design"]}'},
+            'level_claimed': {'category': 'other', 'text': c['text'], 'design_ref': f'DESIGN.md section 3, {pid}'},
             'level_note': c.get('note', LEMMAS),
             'technique': 'static analysis: ' + c['technique'],
         })
     na = [{'property_id': p, 'reason': r} for p, r in sorted(NOT_APPLICABLE.items())]
-    for p in PENDING:
-        if p not in CHECKS and p not in NOT_APPLICABLE:
+    for p in sorted(CHECKS):
+        if p not in built and p not in NOT_APPLICABLE:
             na.append({'property_id': p, 'reason': 'check not built yet in this round (planned in DESIGN.md)'})
     manifest = {
         'version': 1,
@@ -56,19 +149,20 @@ def main():
         },
         'engines': [{
             'name': 'hidverif', 'path': '/verif/hidverif',
-            'serves_properties': sorted(CHECKS),
+            'serves_properties': built,
             'kind_free_text': 'repository-specific static analysers over Python syntax trees (path enumeration of '
-                              'instruction generators, finite-domain tabulation, table/sibling agreement, '
-                              'assembly-text CFG)',
+                              'instruction generators, finite-domain tabulation by a syntax-tree interpreter, '
+                              'table/sibling agreement, assembly-text CFG)',
         }],
         'checks': checks,
         'not_applicable': na,
         'notes': 'Static analysis only. exit 0 = all rule instances hold (known findings printed as KNOWN-FINDING); '
-                 'exit 1 = VIOLATION lines; exit 2 = ANALYSIS-ERROR (analysis could not be carried out).',
+                 'exit 1 = VIOLATION lines; exit 2 = ANALYSIS-ERROR (analysis could not be carried out). '
+                 'tools/sphinx_emu is a triage aid used only by seeded demonstrations, never by a check.',
     }
     with open(os.path.join(ROOT, 'MANIFEST.json'), 'w') as f:
         json.dump(manifest, f, indent=1)
-    print('wrote MANIFEST.json with', len(checks), 'checks')
+    print('wrote MANIFEST.json with', len(checks), 'checks:', ' '.join(built))
 
 
 if __name__ == '__main__':
